@@ -18,6 +18,7 @@ import MwVerif.Driver.Lists
 import MwVerif.Driver.Braces
 import MwVerif.Driver.SplitRow
 import MwVerif.Driver.Table
+import MwVerif.Driver.Spans
 
 open MwVerif.Driver
 
@@ -38,6 +39,7 @@ def main (args : List String) : IO UInt32 := do
   | ["braces"] => loop stdin stdout Braces.step; return 0
   | ["splitrow"] => loop stdin stdout SplitRow.step; return 0
   | ["table"] => loop stdin stdout Table.step; return 0
+  | ["spans"] => loop stdin stdout Spans.step; return 0
   | ["c20"] => loop stdin stdout C20.step; return 0
   | ["c10"] => loop stdin stdout C10.step; return 0
   | ["c13"] => loop stdin stdout C13.step; return 0
